@@ -219,6 +219,66 @@ func c06Specials() []*gen.Expr {
 	}
 }
 
+// c06HandBacks: calls that may want to work in place, applied to what another expression hands back from a literal of the
+// compiled expression or from the document (not_null, to_array, ||, a parenthesis, an index into a multi-select, max_by / min_by
+// over a list that holds it, a pipe): "the operand is a call, so it is a temporary" is wrong for every one of them. With
+// short=true only literal operands (the shared syntax tree) plus the object forms.
+func c06HandBacks(short bool) []*gen.Expr {
+	z := gen.Field("z")
+	providers := []func(x *gen.Expr) *gen.Expr{
+		func(x *gen.Expr) *gen.Expr { return gen.Func("not_null", z, x) },
+		func(x *gen.Expr) *gen.Expr { return gen.Func("not_null", x) },
+		func(x *gen.Expr) *gen.Expr { return gen.Func("to_array", x) },
+		func(x *gen.Expr) *gen.Expr { return gen.Or(z, x) },
+		func(x *gen.Expr) *gen.Expr { return gen.Or(x, z) },
+		func(x *gen.Expr) *gen.Expr { return gen.Paren(x) },
+		func(x *gen.Expr) *gen.Expr { return gen.Chain(gen.MultiList(x), gen.StIndex(0)) },
+		func(x *gen.Expr) *gen.Expr {
+			return gen.Func("max_by", gen.MultiList(x, gen.LitJSON("[]")), gen.ExpRef(gen.Func("length", gen.Current())))
+		},
+		func(x *gen.Expr) *gen.Expr {
+			return gen.Func("min_by", gen.MultiList(x), gen.ExpRef(gen.Func("length", gen.Current())))
+		},
+		func(x *gen.Expr) *gen.Expr { return gen.Pipe(x, gen.Current()) },
+		func(x *gen.Expr) *gen.Expr { return gen.Func("not_null", z, gen.Func("not_null", x)) },
+	}
+	type operand struct {
+		x    *gen.Expr
+		kind string
+	}
+	ops := []operand{{gen.LitJSON(`[3,1,2,1,5]`), "n"}, {gen.LitJSON(`["b","a","c"]`), "s"}, {gen.LitJSON(`[{"n":2,"s":"b"},{"n":1,"s":"a"},{"n":3,"s":"c"}]`), "o"}, {gen.LitJSON(`{"mode":"default","n":1}`), "h"}, {gen.Field("o"), "h"}}
+	if !short {
+		ops = append(ops, operand{gen.Field("an"), "n"}, operand{gen.Field("as"), "s"}, operand{gen.Field("ao"), "o"}, operand{gen.Field("bign"), "n"})
+	}
+	var out []*gen.Expr
+	for _, op := range ops {
+		for pi, pf := range providers {
+			if op.kind == "h" && (pi == 2) {
+				continue // to_array(object) is a fresh one-element list
+			}
+			p := func() *gen.Expr { return pf(gen.Clone(op.x)) }
+			switch op.kind {
+			case "n", "s":
+				out = append(out, gen.Func("reverse", p()), gen.Func("sort", p()), gen.Func("sort_by", p(), gen.ExpRef(gen.Current())))
+				if !short {
+					out = append(out, gen.Chain(gen.MultiList(gen.LitJSON(`[0,0,0]`), p()), gen.StFlatten()), gen.Func("reverse", gen.Func("reverse", p())), gen.Chain(p(), gen.StFlatten()))
+				}
+			case "o":
+				out = append(out, gen.Func("sort_by", p(), gen.ExpRef(gen.Field("n"))), gen.Func("reverse", p()))
+				if !short {
+					out = append(out, gen.Func("map", gen.ExpRef(gen.Func("merge", gen.Current(), gen.LitJSON(`{"seen":true}`))), p()), gen.Chain(gen.Func("sort_by", p(), gen.ExpRef(gen.Field("s"))), gen.StIndex(0)))
+				}
+			case "h":
+				out = append(out, gen.Func("merge", p(), gen.Field("o2")), gen.Func("merge", p(), gen.MultiHash(keyA("x"), []*gen.Expr{gen.Field("n")})))
+				if !short {
+					out = append(out, gen.Func("merge", p(), gen.LitJSON("{}"), gen.Field("o2")), gen.Chain(gen.Func("merge", p(), gen.Field("o2")), gen.StField("n")))
+				}
+			}
+		}
+	}
+	return out
+}
+
 // searchWatched runs Search next to an unsynchronised deep reader of the
 // document and returns the observation and whether the document's snapshot
 // changed.
@@ -342,6 +402,10 @@ func c06(r *mon.Run) {
 			trees = append(trees, n)
 			frozen = append(frozen, false)
 		}
+	}
+	for _, hb := range c06HandBacks(false) {
+		trees = append(trees, hb)
+		frozen = append(frozen, true)
 	}
 	fm := mon.Workload{Name: "function-matrix", N: len(trees), Serial: true, Batch: 200,
 		Describe: func(i int) string { return gen.Spell(trees[i]) },
@@ -555,6 +619,42 @@ func c06(r *mon.Run) {
 		Do: func(i int, t *mon.Tally) {
 			c06CaseExpr(r, t, rl, "lists-with-nulls", i, nexprs[i/2], func() interface{} { return withSpare(nullDoc()) }, i%2 == 1)
 		}}
-	r.Exec(fm, sd, rnd, wr, xd, emb, nlw)
+	// calls and projections applied to what another expression HANDS BACK from the document: an element chosen by max_by / min_by /
+	// not_null / an index / a field, the list itself through to_array / || / a parenthesis / a one-element multi-select. Whoever
+	// decides "this operand is a temporary of mine, I may work in place" must get every one of these providers right.
+	provDoc := func() interface{} {
+		return docs.J(`{"aa":[[3,1],[5,6,7],[2]],"an":[3,1,2,1],"as":["b","a","c"],"ao":[{"n":2,"s":"b","an":[2,1]},{"n":1,"s":"a","an":[4,3,9]},{"n":3,"s":"c","an":[]}],"o":{"n":1,"an":[9,8],"o":{"an":[7,5,6]}},"o2":{"s":"y","n":7},"z":null,"ss":["pq","rs"],"aas":[["b","a"],["d","c","e"]],"aao":[[{"n":2},{"n":1}],[{"n":5},{"n":4},{"n":3}]],"ao2":[{"o":{"n":2,"k":1}},{"o":{"n":1,"j":2}}]}`)
+	}
+	providers := []string{"max_by(%A, &length(@))", "min_by(%A, &length(@))", "not_null(z, %L)", "not_null(%L)", "to_array(%L)", "%A[0]", "%A[-1]", "ao[1].an", "o.an", "o.o.an", "max_by(ao, &n).an", "min_by(ao, &n).an", "(%L)", "z || %L", "%L || z", "%L && %L", "@.%L", "[%L][0]", "{k: %L}.k", "%L | @",
+		"map(&@, %A)[1]", "(%A[*])[1]", "reverse(%A)[0]", "sort_by(ao, &n)[0].an", "merge(o).an", "merge(o, o2).an", "not_null(z, %A)[1]", "to_array(%A)[1]", "(%A || z)[1]", "%A[?length(@) > `1`] | [0]", "%A[1:] | [0]", "values({k: %L})[0]", "not_null(z, not_null(%L))", "max_by([%L], &length(@))", "to_array(to_array(%L))"}
+	outers := []string{"reverse(%P)", "sort(%P)", "sort_by(%P, &@)", "sort_by(%P, &n)", "%P[]", "%P[*]", "%P[?@]", "%P[1:]", "%P[::-1]", "to_array(%P)", "map(&@, %P)", "join(',', %P)", "max(%P)", "not_null(%P)", "[%P, %P]", "%P | reverse(@)", "reverse(%P) | sort(@)", "sort(%P) | reverse(@)",
+		"merge(%O, {n: `0`})", "merge(%O, o2)", "merge(%O, `{}`, {an: `[]`})", "merge(%O).n", "%O.*", "values(%O)", "max_by(%P, &@)", "[%P][]", "[%P, %P][]", "reverse(reverse(%P))", "sort_by(%P, &to_string(@))", "reverse(%P)[0]", "length(reverse(%P))", "abs(reverse(%P))", "[reverse(%P), sort(%P)]"}
+	lists := [][2]string{{"aa", "an"}, {"aas", "as"}, {"aao", "ao"}}
+	objProviders := []string{"max_by(ao2, &o.n).o", "min_by(ao2, &o.n).o", "not_null(z, o)", "ao2[0].o", "o.o", "(o)", "o || z", "[o][0]", "{k: o}.k", "to_array(o)[0]", "ao[?n == `1`] | [0]", "max_by(ao, &n)", "values({k: o})[0]"}
+	var pexprs []string
+	for _, l := range lists {
+		for _, pv := range providers {
+			pe := strings.ReplaceAll(strings.ReplaceAll(pv, "%A", l[0]), "%L", l[1])
+			for _, ou := range outers {
+				if strings.Contains(ou, "%O") {
+					continue
+				}
+				pexprs = append(pexprs, strings.ReplaceAll(ou, "%P", pe))
+			}
+		}
+	}
+	for _, pv := range objProviders {
+		for _, ou := range outers {
+			if strings.Contains(ou, "%O") {
+				pexprs = append(pexprs, strings.ReplaceAll(ou, "%O", pv))
+			}
+		}
+	}
+	pw := mon.Workload{Name: "calls-on-parts-of-the-document-handed-back-by-other-calls", N: len(pexprs), Serial: true, Batch: 200,
+		Describe: func(i int) string { return pexprs[i] },
+		Do: func(i int, t *mon.Tally) {
+			c06CaseExpr(r, t, rl, "calls-on-parts-of-the-document-handed-back-by-other-calls", i, pexprs[i], func() interface{} { return withSpare(provDoc()) }, i%2 == 1)
+		}}
+	r.Exec(fm, sd, rnd, wr, xd, emb, nlw, pw)
 	r.Extra["race_log_active"] = rl != nil
 }
